@@ -65,6 +65,7 @@ class ShardStats:
         self.inconclusive = 0
         self.errors = []
         self.excluded = 0
+        self.extra = {}
 
     def add(self, case, out, max_samples=3):
         self.evaluations += 1
@@ -95,7 +96,7 @@ class ShardStats:
             'violations': {k: [v[0], v[1], v[2]]
                            for k, v in self.violations.items()},
             'inconclusive': self.inconclusive, 'errors': self.errors,
-            'excluded': self.excluded,
+            'excluded': self.excluded, 'extra': self.extra,
         }
 
 
